@@ -131,6 +131,43 @@ def run_kepler_seq(block, ctx):
     ctx.sample(block[0])
 
 
+# -- dense (e, M) grids: iteration schemes fail in pockets that are not at named values -------------------
+
+def dense_shards(tier):
+    """(e, m_lo, m_hi, m_step).  High eccentricities 0.90 .. 0.9995 in steps of 0.0005 with mean
+    anomalies +-40 deg on a 0.01 deg grid (thorough: 0.002), where every fixed-point or Newton
+    scheme is fragile; low eccentricities 0 .. 0.03 in steps of 0.0005 over a whole turn on a 1 deg grid,
+    where a truncated series would be tempting; and the rest of [0, 1) in steps of 0.01 on a 0.5 deg grid."""
+    out = []
+    mstep = 0.002 if tier == "thorough" else 0.01
+    for k in range(200):
+        e = 0.90 + 0.0005 * k
+        for lo in (-40.0, -20.0, 0.0, 20.0):
+            out.append((round(e, 6), lo, lo + 20.0, mstep))
+    for k in range(61):
+        out.append((round(0.0005 * k, 6), -180.0, 180.0, 1.0))
+    for k in range(3, 90):
+        out.append((round(0.01 * k, 6), -180.0, 180.0, 0.5))
+    return out
+
+
+def run_dense(spec, ctx):
+    e, lo, hi, step = spec
+    n = int(round((hi - lo) / step))
+    bad = 0
+    for k in range(n):
+        m = lo + k * step
+        ctx.evals += 1
+        for site, msg, dev in check_kepler(e, m):
+            bad += 1
+            ctx.viol({"e": e, "M": m}, msg, dev=dev, site="dense_" + site)
+            ctx.maxi("dense_" + site, dev)
+    ctx.nt_count += n
+    ctx.outcome((e, bad))
+    ctx.obs(spec, bad)
+    ctx.sample({"e": e, "M_from": lo, "M_to": hi, "step": step})
+
+
 # -- speeds, length, phase -------------------------------------------------------
 
 AXES = [0.3, 1.0, 17.94, 100.0]
@@ -354,7 +391,8 @@ def node_cases():
     out = []
     for w in OMEGAS:
         for asc in (True, False):
-            for e in (0.0, 1e-9, 0.0167, 0.1, 0.5, 0.8502196, 0.9, 0.95, 0.98, 0.999):
+            for e in (0.0, 1e-9, 1e-8, 1e-7, 5e-7, 9.99e-7, 1e-6, 1e-5, 1e-3, 0.0167, 0.1, 0.5, 0.8502196, 0.9, 0.95,
+                      0.98, 0.999):
                 for a in (0.3, 1.0, 17.9400782):
                     out.append({"kind": "elliptic", "omega": w, "e": e, "a": a, "ascending": asc})
             for q in (0.1, 0.5871018, 1.0, 1.324502, 30.0):
@@ -389,6 +427,8 @@ def clauses(tier):
     return [
         Clause("kepler", kshards, run_kepler, lambda c: [m for _, m, _ in check_kepler(c["e"], c["M"])],
                floor=1000),
+        Clause("kepler_dense", dense_shards(tier), run_dense, lambda c: [m for _, m, _ in check_kepler(c["e"], c["M"])],
+               floor=100000),
         Clause("kepler_sequence", chunks([{"e": e, "M": m, "d": d, "de": de} for e in ECCS for m in SEQ_M
                                           for d in SEQ_D for de in SEQ_DE], 16), run_kepler_seq,
                lambda c: [m for _, m, _ in check_kepler_seq(c)], floor=1000, shape="H"),
